@@ -20,7 +20,22 @@ class C17(Prop):
     partial = {}
 
     def cases(self, rng, tier, budget):
-        for i in range(budget):
+        # every named class of the audit, round-robin (docs/audit_C17.md), integer and float timestamps alternating,
+        # each with no main variant, its own choice and every top-level key in turn
+        n_cls = 0
+        for rnd in range(4 if tier == "quick" else 40):
+            for ci, cls in enumerate(TF.CLASSES):
+                spec, mv = TF.gen_class(rng, cls, tier, float_ts=((rnd + ci) % 2 == 1 and cls != "bool-timestamp!"))
+                keys = [v["key"] for v in spec["variants"]]
+                if rnd % 4 == 1:
+                    mv = None
+                elif rnd % 4 == 2 and keys:
+                    mv = keys[(rnd + ci) % len(keys)]
+                elif rnd % 4 == 3 and keys:
+                    mv = sorted(keys)[-1]
+                n_cls += 1
+                yield {"op": "general", "args": {"spec": spec, "main_variant": mv, "cls": cls}}
+        for i in range(max(0, budget - n_cls)):
             spec, mv = TF.gen(rng, tier, float_ts=(rng.random() < 0.35), dashed_by_id=0.3)
             keys = [v["key"] for v in spec["variants"]]
             r = rng.random()
@@ -52,7 +67,7 @@ class C17(Prop):
 
     def model_requests(self, case):
         a = case["args"]
-        return [{"op": "ti_dumps", "args": {"spec": a["spec"], "main_variant": a.get("main_variant")}}]
+        return [{"op": "ti_dumps", "args": {"spec": TF.model_tree_spec(a["spec"]), "main_variant": a.get("main_variant")}}]
 
     def model_result(self, case, outs):
         return outs[0]
@@ -99,7 +114,7 @@ class C17(Prop):
         try:
             ts_int = str(int(ts))
         except ValueError:
-            ts_int = str(int(float(ts)))
+            ts_int = "1" if ts == "True" else str(int(float(ts)))     # str(True): a bool is an int to the validator (F35)
         inside = {"family": rel.get("name"), "version": rel.get("version"), "name": "%s %s" % (rel.get("name"), rel.get("version")),
                   "arch": tree.get("arch"), "platforms": tree.get("platforms"), "timestamp": ts_int}
         var = TF.lookup_variant(a["spec"]["variants"], g["variant"])
@@ -123,6 +138,9 @@ class C17(Prop):
         s, mv = case["args"]["spec"], case["args"].get("main_variant")
         d = dist.setdefault("general", {"cases": 0})
         d["cases"] += 1
+        cls = case["args"].get("cls")
+        if cls:
+            dist.setdefault("classes", {})[cls] = dist.setdefault("classes", {}).get(cls, 0) + 1
         feats = {"written": "ok" in real_out.get("dump", {}), "refused": "ok" not in real_out.get("dump", {}),
                  "main_variant_none": mv is None, "main_variant_key": mv is not None and mv in [v["key"] for v in s["variants"]],
                  "src": s["tree"]["arch"] == "src", "float_ts": isinstance(s["tree"]["build_timestamp"], dict),
